@@ -406,6 +406,11 @@ class Evaluator:
     def call(self, node: ast.Call, env) -> AV:
         f = node.func
         name = f.id if isinstance(f, ast.Name) else None
+        if name is not None and name in env and env[name].kind == 'func':
+            hook = self.hooks.get('<call:' + name + '>') or self.hooks.get('<call>')
+            if hook is None:
+                raise Unknown(f'call of the function value {name}')
+            return hook(self, [self.ev(a, env) for a in node.args])
         if name == 'isinstance':
             v = self.ev(node.args[0], env)
             return const_av(any(is_instance(v, c) for c in self._class_names(node.args[1], env)))
